@@ -47,7 +47,7 @@ func runC20(p *Program, e *Engine, r *Result, tier string) {
 		var ctxP string
 		for _, v := range w.Visits {
 			st, ok := v.Instr.(*ssa.Store)
-			if !ok || v.Ctx != root {
+			if !ok {
 				continue
 			}
 			fa, ok := st.Addr.(*ssa.FieldAddr)
@@ -56,20 +56,21 @@ func runC20(p *Program, e *Engine, r *Result, tier string) {
 			}
 			switch fieldName(fa.X.Type(), fa.Field) {
 			case "Context":
-				ctxP = stripIDs(root.path(st.Val))
+				ctxP = stripIDs(v.Ctx.path(st.Val))
 			}
 		}
 		// (1) same chain: outer two calls agree, and the backward slices reach results #0 / #1 of one and the same
 		// option-step call (a package function returning the pair of texts)
 		var aV, bV ssa.Value
+		var abCtx *Ctx
 		for _, v := range w.Visits {
-			if st, ok := v.Instr.(*ssa.Store); ok && v.Ctx == root {
+			if st, ok := v.Instr.(*ssa.Store); ok {
 				if fa, ok := st.Addr.(*ssa.FieldAddr); ok {
 					switch fieldName(fa.X.Type(), fa.Field) {
 					case "A":
-						aV = st.Val
+						aV, abCtx = st.Val, v.Ctx
 					case "B":
-						bV = st.Val
+						bV, abCtx = st.Val, v.Ctx
 					}
 				}
 			}
@@ -95,6 +96,12 @@ func runC20(p *Program, e *Engine, r *Result, tier string) {
 					return
 				}
 				seen[v] = true
+				if prm, isP := v.(*ssa.Parameter); isP && abCtx != nil {
+					if b, ok := abCtx.Bind[prm]; ok && b.Val != nil {
+						rec(b.Val, d+1)
+						return
+					}
+				}
 				switch x := v.(type) {
 				case *ssa.Extract:
 					if c, ok := x.Tuple.(*ssa.Call); ok && c.Call.StaticCallee() != nil && fnPkg(c.Call.StaticCallee()) == p.Ztest {
